@@ -10,26 +10,37 @@ use insim::{insim::{Isi, Tiny, TinyType}, identifiers::RequestId, net::{blocking
 use crate::{common::*, net::*};
 
 #[derive(Clone, Debug)]
-pub enum UOp { Read, Write(Packet), Handshake(Isi) }
+pub enum UOp { Read, Write(Packet), Handshake(Isi), Refused(usize, Packet) }   // Refused: a packet the encoder refuses - write() must fail and leave nothing behind
 
 fn wtag(w: &WEv) -> String { match w { WEv::Accept(k) => format!("a{k}"), WEv::Pending => "p".into(), WEv::Fail(k) => format!("f{k}") } }
 fn parse_w(t: &str) -> WEv { match &t[..1] { "a" => WEv::Accept(t[1..].parse().unwrap()), "p" => WEv::Pending, _ => WEv::Fail(t[1..].parse().unwrap()) } }
 fn fnv(s: &str) -> u64 { let mut h = 0xcbf29ce484222325u64; for b in s.bytes() { h ^= b as u64; h = h.wrapping_mul(0x100000001b3); } h }
 
 fn op_frame(compressed: bool, op: &UOp) -> Option<Vec<u8>> {
-    match op { UOp::Read => None, UOp::Write(p) => encode(compressed, p), UOp::Handshake(i) => encode(compressed, &Packet::Isi(i.clone())) }
+    match op { UOp::Read | UOp::Refused(..) => None, UOp::Write(p) => encode(compressed, p), UOp::Handshake(i) => encode(compressed, &Packet::Isi(i.clone())) }
 }
 /// "r" | "w<frame hex>" | "h<frame hex>" (the model treats w and h alike; the replay needs the difference)
 fn op_tag(compressed: bool, op: &UOp) -> String {
-    match op { UOp::Read => "r".into(), UOp::Write(_) => format!("w{}", hex(&op_frame(compressed, op).unwrap_or_default())), UOp::Handshake(_) => format!("h{}", hex(&op_frame(compressed, op).unwrap_or_default())) }
+    match op { UOp::Read => "r".into(), UOp::Refused(i, _) => format!("x{i}"), UOp::Write(_) => format!("w{}", hex(&op_frame(compressed, op).unwrap_or_default())), UOp::Handshake(_) => format!("h{}", hex(&op_frame(compressed, op).unwrap_or_default())) }
 }
 fn op_of_tag(compressed: bool, t: &str) -> UOp {
     if t == "r" { return UOp::Read; }
+    if let Some(i) = t.strip_prefix('x') { let i: usize = i.parse().unwrap(); return UOp::Refused(i, refused_pool(compressed)[i].clone()); }
     let f = unhex(&t[1..]);
     let codec = Codec::new(mode_of(compressed));
     let mut b = bytes::BytesMut::from(&f[..]);
     let p = codec.decode(&mut b).ok().flatten().expect("replay: user frame decodes");
     match (&t[..1], p) { ("h", Packet::Isi(i)) => UOp::Handshake(i), (_, p) => UOp::Write(p) }
+}
+
+/// packets the encoder refuses after it has already produced part of the frame (a duration that does not fit, too many elements), in a fixed order
+pub fn refused_pool(compressed: bool) -> Vec<Packet> {
+    let mut refused = vec![];
+    for d in crate::gen::kinds::default_packets().iter() {
+        for idx in 0..crate::gen::glue::dur_fields(d) { let mut p = d.clone(); let _ = crate::gen::glue::set_dur(&mut p, idx, Duration::from_secs(1 << 40)); if encode(compressed, &p).is_none() { refused.push(p); } }
+        let mut p = d.clone(); if crate::gen::glue::vec_resize(&mut p, 255) && encode(compressed, &p).is_none() { refused.push(p); }
+    }
+    refused
 }
 
 /// the caller's packets: a TINY that is not a keep-alive, ISIs asking for InSim versions 8 / 9 / 10 with and
@@ -47,6 +58,9 @@ pub fn user_pool(rng: &mut Rng, compressed: bool) -> Vec<UOp> {
     let defaults = crate::gen::kinds::default_packets();
     for _ in 0..4 { let p = rng.pick(&defaults).clone(); if encode(compressed, &p).is_some() { v.push(UOp::Write(p)); } }
     v.retain(|o| op_frame(compressed, o).is_some());
+    // packets the encoder refuses after it has already produced part of the frame (a duration that does not fit, too many elements)
+    let refused = refused_pool(compressed);
+    for _ in 0..3 { if !refused.is_empty() { let i = rng.below(refused.len() as u64) as usize; v.push(UOp::Refused(i, refused[i].clone())); } }
     v
 }
 
@@ -71,6 +85,7 @@ pub fn conv_run(imp: &str, rt: &tokio::runtime::Runtime, fr: &Frames, idx: &RepI
                 UOp::Read => { let r = guard(|| f.read()); let w = t.take_written(); if !w.is_empty() { trace.push(format!("W{}", hex(&w))); } if conv_tokens(r, idx, &mut trace) { break; } },
                 UOp::Write(p) => { let r = guard(|| f.write(p.clone())); let w = t.take_written(); trace.push(match r { Some(Ok(())) => format!("U{}", hex(&w)), Some(Err(e)) => format!("UERR:{:?}:{}", e, hex(&w)), None => "UPANIC".into() }); },
                 UOp::Handshake(i) => { let r = guard(|| f.handshake(i.clone())); let w = t.take_written(); trace.push(match r { Some(Ok(())) => format!("U{}", hex(&w)), Some(Err(e)) => format!("UERR:{:?}:{}", e, hex(&w)), None => "UPANIC".into() }); },
+                UOp::Refused(_, p) => { let r = guard(|| f.write(p.clone())); let w = t.take_written(); match r { Some(Err(_)) if w.is_empty() => {}, Some(Err(_)) => trace.push(format!("XBYTES{}", hex(&w))), Some(Ok(())) => trace.push(format!("XOK{}", hex(&w))), None => if !w.is_empty() { trace.push(format!("XBYTES{}", hex(&w))) } } },   // a panic is a loud refusal too (C03: packets too large for the mode)
             }
         }
     } else {
@@ -81,6 +96,7 @@ pub fn conv_run(imp: &str, rt: &tokio::runtime::Runtime, fr: &Frames, idx: &RepI
                 UOp::Read => { let r = guard(|| rt.block_on(async { f.read().await })); let w = t.take_written(); if !w.is_empty() { trace.push(format!("W{}", hex(&w))); } if conv_tokens(r, idx, &mut trace) { break; } },
                 UOp::Write(p) => { let r = guard(|| rt.block_on(async { f.write(p.clone()).await })); let w = t.take_written(); trace.push(match r { Some(Ok(())) => format!("U{}", hex(&w)), Some(Err(e)) => format!("UERR:{:?}:{}", e, hex(&w)), None => "UPANIC".into() }); },
                 UOp::Handshake(i) => { let r = guard(|| rt.block_on(async { f.handshake(i.clone(), Duration::from_secs(5)).await })); let w = t.take_written(); trace.push(match r { Some(Ok(())) => format!("U{}", hex(&w)), Some(Err(e)) => format!("UERR:{:?}:{}", e, hex(&w)), None => "UPANIC".into() }); },
+                UOp::Refused(_, p) => { let r = guard(|| rt.block_on(async { f.write(p.clone()).await })); let w = t.take_written(); match r { Some(Err(_)) if w.is_empty() => {}, Some(Err(_)) => trace.push(format!("XBYTES{}", hex(&w))), Some(Ok(())) => trace.push(format!("XOK{}", hex(&w))), None => if !w.is_empty() { trace.push(format!("XBYTES{}", hex(&w))) } } },   // a panic is a loud refusal too (C03: packets too large for the mode)
             }
         }
     }
@@ -89,11 +105,12 @@ pub fn conv_run(imp: &str, rt: &tokio::runtime::Runtime, fr: &Frames, idx: &RepI
 
 fn conv_line(fr: &Frames, verify: bool, evs: &[REv], ops: &[UOp]) -> String {
     format!("conv {} {} {} | {} | {}", mode_tag(fr.compressed), verify as u8, fr.table(), evs.iter().map(ev_tag).collect::<Vec<_>>().join(" "),
-            ops.iter().map(|o| op_tag(fr.compressed, o)).collect::<Vec<_>>().join(" "))
+            ops.iter().filter(|o| !matches!(o, UOp::Refused(..))).map(|o| op_tag(fr.compressed, o)).collect::<Vec<_>>().join(" "))
 }
 
 /// the properties on one conversation trace, independent of the model: None = holds
 fn conv_oracle(fr: &Frames, verify: bool, ops: &[UOp], trace: &[String]) -> Option<String> {
+    if let Some(x) = trace.iter().find(|t| t.starts_with('X')) { return Some(format!("[C06] a write() of a packet the encoder refuses did not simply fail: {x} (XOK = reported success, XBYTES = bytes reached the transport)")); }
     // (1) every write()/handshake() put exactly its frame on the wire
     let want_u: Vec<String> = ops.iter().filter_map(|o| op_frame(fr.compressed, o)).map(|f| format!("U{}", hex(&f))).collect();
     let got_u: Vec<&String> = trace.iter().filter(|t| t.starts_with('U')).collect();
@@ -117,7 +134,8 @@ impl ConvRunner {
         for imp in ["B", "A"] {
             let trace = conv_run(imp, &self.rt, fr, idx, verify, evs, ws, ops);
             st.evaluations += 1; self.convs += 1;
-            let id = format!("{imp} {line} || {}", ws.iter().map(wtag).collect::<Vec<_>>().join(" "));
+            let full = format!("conv {} {} {} | {} | {}", mode_tag(fr.compressed), verify as u8, fr.table(), evs.iter().map(ev_tag).collect::<Vec<_>>().join(" "), ops.iter().map(|o| op_tag(fr.compressed, o)).collect::<Vec<_>>().join(" "));
+            let id = format!("{imp} {full} || {}", ws.iter().map(wtag).collect::<Vec<_>>().join(" "));
             if let Some(w) = conv_oracle(fr, verify, ops, &trace) { st.fail(format!("[{prop} {}] conversation: {w}", if imp == "B" { "blocking" } else { "tokio" }), id); }
             out.case(&line, &trace.join(" "));
         }
@@ -228,7 +246,7 @@ pub fn aconv_run(rt: &tokio::runtime::Runtime, fr: &Frames, idx: &RepIndex, veri
             if !entry.is_empty() {
                 if after == Some(true) { let w = t.take_written(); if !w.is_empty() { trace.push(format!("W{}", hex(&w))); } }
                 for op in entry {
-                    let r = match op { UOp::Write(p) => f.write(p.clone()).await, UOp::Handshake(i) => f.handshake(i.clone(), Duration::from_secs(5)).await, UOp::Read => Ok(()) };
+                    let r = match op { UOp::Write(p) => f.write(p.clone()).await, UOp::Handshake(i) => f.handshake(i.clone(), Duration::from_secs(5)).await, UOp::Read | UOp::Refused(..) => Ok(()) };
                     let w = t.take_written();
                     match r { Ok(()) => trace.push(format!("U{}", hex(&w))), Err(e) => { trace.push(format!("UERR:{:?}:{}", e, hex(&w))); break 'outer; } }
                 }
@@ -301,7 +319,7 @@ pub fn async_conversations(prop: &str, a: &Args, rng: &mut Rng, st: &mut Stats, 
     for compressed in [true, false] {
         let ka = raw_frame(compressed, 3, 0, &[0]);
         let pool = frame_pool(rng, compressed);
-        let users: Vec<UOp> = user_pool(rng, compressed).into_iter().filter(|o| op_frame(compressed, o).map(|f| f != ka).unwrap_or(false)).collect();
+        let users: Vec<UOp> = user_pool(rng, compressed).into_iter().filter(|o| !matches!(o, UOp::Refused(..)) && op_frame(compressed, o).map(|f| f != ka).unwrap_or(false)).collect();
         let mut one = |fr: &Frames, idx: &RepIndex, verify: bool, evs: &[REv], ws: &[WEv], cancels: &[bool], wsched: &[Vec<UOp>], aon: bool, run: &mut ConvRunner, st: &mut Stats, out: &mut Out| {
             let r = aconv_run(&run.rt, fr, idx, verify, evs, ws, cancels, wsched);
             st.evaluations += 1; run.convs += 1; run.dropped += r.dropped as u64; run.writes += wsched.iter().map(|e| e.len() as u64).sum::<u64>();
